@@ -1,6 +1,7 @@
 package props
 
 import (
+	"go/token"
 	"go/types"
 	"sort"
 	"strings"
@@ -199,6 +200,88 @@ func c18(r *core.Run) {
 		wantGet := "assert:encoding.BinaryUnmarshaler,call:(encoding.BinaryUnmarshaler).UnmarshalBinary,call:encoding/json.Unmarshal"
 		r.Check("C18.A1", "C18.A1@statestore#Put/Get duality", lf.Pos(), strings.Join(a.put, ",") == wantPut && strings.Join(a.get, ",") == wantGet,
 			"Get decodes with the inverse of what Put encodes with (binary marshaler else JSON)", "Put uses "+strings.Join(a.put, ",")+" but Get uses "+strings.Join(a.get, ","))
+	}
+	c18Presence(r)
+}
+
+// c18Presence (G2): both stores report "not found" by key membership, never by looking at
+// the value: the mock's Get returns storage.ErrNotFound exactly on the not-present edge of a
+// comma-ok lookup of its map and decodes only on the present edge; the leveldb-backed Get
+// maps exactly the driver's ErrNotFound and decodes only when the driver reported no error.
+// (A key written with an empty encoding is still a key.)
+func c18Presence(r *core.Run) {
+	w := r.W
+	isNotFoundLoad := func(in ssa.Instruction) bool {
+		u, ok := in.(*ssa.UnOp)
+		if !ok || u.Op != token.MUL {
+			return false
+		}
+		g, ok := u.X.(*ssa.Global)
+		return ok && g.Name() == "ErrNotFound" && g.Pkg.Pkg.Path() == core.P("pkg/storage")
+	}
+	isDecode := func(in ssa.Instruction) bool {
+		c := core.Common(in)
+		if c == nil {
+			return false
+		}
+		if c.IsInvoke() {
+			return c.Method.Name() == "UnmarshalBinary"
+		}
+		return core.CalleeName(c) == "encoding/json.Unmarshal"
+	}
+	check := func(fn *ssa.Function, absent, present core.EdgeSet, how string) {
+		r.Saw(core.FuncName(fn))
+		r.Eval(core.EdgeCount(fn))
+		nNF, nDec := 0, 0
+		core.EachInstr(fn, func(_ *ssa.BasicBlock, _ int, in ssa.Instruction) {
+			if isNotFoundLoad(in) {
+				nNF++
+				r.Check("C18.G2", core.Key("C18.G2", fn, "ErrNotFound only for an absent key"), in.Pos(), len(absent) > 0 && core.OnlyBehind(fn, in, absent),
+					"storage.ErrNotFound is reported only on the edge where "+how+" says the key is absent", "storage.ErrNotFound is reachable for a key that is present (presence is not decided by "+how+"): a key written with an empty encoding reads as missing although Iterate visits it")
+			}
+			if isDecode(in) {
+				nDec++
+				r.Check("C18.G2", core.Key("C18.G2", fn, "decode only for a present key"), in.Pos(), len(present) > 0 && core.OnlyBehind(fn, in, present),
+					"the stored bytes are decoded only on the edge where the key is present", "a decode is reachable without the presence test")
+			}
+		})
+		r.Floor("C18.G2", "ErrNotFound results in "+core.FuncName(fn), nNF, 1)
+		r.Floor("C18.G2", "decodes in "+core.FuncName(fn), nDec, 2)
+	}
+	if fn := w.Func("pkg/statestore/mock", "(*store).Get"); fn == nil {
+		r.Fatal("unresolved anchor pkg/statestore/mock.(*store).Get")
+	} else {
+		key := fn.Params[1]
+		present, absent := core.AtomEdges(fn, func(base ssa.Value) (bool, bool) {
+			ex, ok := base.(*ssa.Extract)
+			if !ok || ex.Index != 1 {
+				return false, false
+			}
+			lk, ok := ex.Tuple.(*ssa.Lookup)
+			if !ok || !lk.CommaOk || lk.Index != ssa.Value(key) || !core.IsFieldOf(lk.X, "pkg/statestore/mock.store", "store") {
+				return false, false
+			}
+			return true, true
+		})
+		check(fn, absent, present, "the comma-ok lookup of the map")
+	}
+	if fn := w.Func("pkg/statestore/leveldb", "(*store).Get"); fn == nil {
+		r.Fatal("unresolved anchor pkg/statestore/leveldb.(*store).Get")
+	} else {
+		isDrvGet := func(c *ssa.Call) bool { return c.Call.IsInvoke() && c.Call.Method.Name() == "Get" }
+		okE, _ := core.AtomEdges(fn, core.ErrNilAtom(isDrvGet))
+		absent, _ := core.AtomEdges(fn, core.BoolCallAtom(func(c *ssa.Call) bool {
+			if !core.IsCallTo(c, "errors.Is") {
+				return false
+			}
+			u, ok := c.Call.Args[1].(*ssa.UnOp)
+			if !ok {
+				return false
+			}
+			g, ok := u.X.(*ssa.Global)
+			return ok && g.Name() == "ErrNotFound" && strings.HasSuffix(g.Pkg.Pkg.Path(), "pkg/shed/driver")
+		}))
+		check(fn, absent, okE, "the driver's ErrNotFound")
 	}
 }
 
